@@ -30,6 +30,9 @@ RULE = ("per public function: a random labelled case is evaluated in the canonic
 ASSUMPTIONS = ["laziness and non-mutation are observations of this run, not theorems"]
 
 
+# counters that every complete run must have incremented (harness self-check, see core.run_check)
+EXPECT_COUNTS = ['rep:as-generated', 'rep:transpose', 'rep:shuffle-coords', 'rep:dask', 'rep:dataset', 'rep:dataset-second-variable', 'rep:pandas', 'rep:pandas-angular', 'rep:manager-multistep', 'model_tie']
+
 def S():
     import scores
     return scores
@@ -193,6 +196,7 @@ def run(ctx):
                     if not ok:
                         ctx.violation(f"{rc.name}: Dataset variable differs from the DataArray result: {why}", desc, "same", why)
                     elif base2[0] == "ok":
+                        ctx.count("rep:dataset-second-variable")
                         ok, why = scorelib.same_value(base2[1], r[1]["v2"])
                         if not ok:
                             ctx.violation(f"{rc.name}: second Dataset variable (the fields reversed) differs from the DataArray result: {why}",
@@ -227,7 +231,7 @@ def pandas_api(ctx):
                 a = core.call_impl(getattr(PC, nm), pd.Series(ff), pd.Series(oo), **kwa)
                 b = core.call_impl(getattr(Sc.continuous, nm), xr.DataArray(ff, dims="x"), xr.DataArray(oo, dims="x"), **kwa)
                 ctx.case(("pandas", nm, ang, tuple(ff), tuple(map(str, oo))))
-                ctx.count("rep:pandas")
+                ctx.count("rep:pandas-angular" if ang else "rep:pandas")
                 if a[0] != b[0] or (a[0] == "ok" and not np.allclose(float(a[1]), float(b[1]), rtol=1e-9, atol=1e-12, equal_nan=True)):
                     ctx.violation(f"scores.pandas.continuous.{nm}({kwa}) differs from the xarray function on the same values", {"fcst": ff, "obs": oo, "kwargs": kwa}, str(b[1]), str(a[1]))
 
